@@ -2,6 +2,7 @@ import StyluaModel.Model.StrLit
 import StyluaModel.Spec.StrVal
 import Driver.Util
 import Driver.ExprProto
+import Driver.BlockProto
 /-
 `modeld`: one request per line on stdin, one answer per line on stdout.
 The harness runs the real code on the same requests and diffs the answers.
@@ -55,6 +56,7 @@ def handle (line : String) : String :=
       | some s => hexOfChars (StrLit.rewriteNumber s.toList)
       | none => "bad-op"
   | ["expr", v, entry, i, o] => Driver.ExprProto.handleExpr v entry i o
+  | ["block", v, rs, re, body] => Driver.BlockProto.handle v rs re body
   | ["faithful", i] => Driver.ExprProto.handleFaithful i
   | ["semeq", i, o] => Driver.ExprProto.handleSem i o
   | _ => "bad-op"
